@@ -17,7 +17,7 @@ def run(report):
                   "patterns cookie_re/blank_re are taken from the running CPython's tokenize module",
                   "regex translation pv/rx.py (re._parser parse tree -> SMT RegLan), decided by z3")
     tier = report.tier
-    res = B.run_script('harness.c15_run', ['--n', '4' if tier == 'quick' else '5', '--k', '4' if tier == 'quick' else '5'])
+    res = B.run_script('harness.c15_run', ['--n', '4' if tier == 'quick' else '6', '--k', '4' if tier == 'quick' else '6'])
     names = ['bnd:C15.split_lines.total', 'bnd:C15.split_lines.keepends', 'bnd:C15.split_lines.join',
              'bnd:C15.split_lines.dropends', 'bnd:C15.split_lines.count', 'bnd:C15.decode.same_as_cpython']
     B.bounded_obligations(report, 'C15', names, res, functions=['parso.utils.split_lines', 'parso.utils.python_bytes_to_unicode'])
